@@ -24,6 +24,9 @@ hab_inputs = importlib.import_module('habutax.inputs')
 hab_values = importlib.import_module('habutax.values')
 
 
+MISSING = object()
+
+
 class Tok(object):
     """The text of an input value as the store holds it: opaque, non-blank,
     valid for IntegerInput; int(tok) is the uninterpreted value inval(j)."""
@@ -55,9 +58,9 @@ class StubConfig(object):
     """Keyed stand-in for configparser.ConfigParser behind InputStore: no file
     syntax, no interpolation, no iteration (any other access raises)."""
 
-    def __init__(self, world):
+    def __init__(self, world, preset=None):
         self.world = world
-        self.set_values = {}
+        self.set_values = dict(preset or {})
         self._sections = set()
 
     def has_option(self, section, key):
@@ -68,7 +71,9 @@ class StubConfig(object):
 
     def get(self, section, key):
         name = '%s.%s' % (section, key)
-        return self.set_values.get(name) or Tok(name)
+        if name in self.set_values:
+            return self.set_values[name]
+        return Tok(name)
 
     def sections(self):
         return list(self._sections)
@@ -100,6 +105,11 @@ class World(object):
         self.second_form = second_form
         self.instanced = instanced
         self.allow_abort_targets = allow_abort_targets
+        self.input_modes = False
+        self.mode_granularity = 'program'
+        self.n_modes = 3
+        self.n_answers = 3
+        self.order = 'symbolic'
         self.choices = {}
         self.log = []
         self.targets = []
@@ -117,6 +127,14 @@ class World(object):
         # actions: 0 RETURN, 1 NOT_IMPLEMENTED, 2.. read input j, then read line t
         self.n_actions = 2 + len(self.input_names) + len(self.targets)
 
+    def mode_key(self, kind, line_name, node):
+        """granularity of the lookup-mode choice (a bound on the program space)"""
+        if self.mode_granularity == 'program':
+            return ('mode', kind)
+        if self.mode_granularity == 'line':
+            return ('mode', kind, line_name)
+        return ('mode', kind, line_name, node)
+
     def choose(self, key, n):
         """SMT choice in [0, n) made lazily and memoised by node."""
         v = self.choices.get(key)
@@ -131,7 +149,7 @@ class World(object):
     def describe(self):
         out = {}
         for key, a in sorted(self.choices.items(), key=lambda kv: str(kv[0])):
-            out[str(key)] = self.action_name(a) if key[0] == 'act' else a
+            out[str(key)] = self.action_name(a) if key[0] == 'act' else ['getitem', 'get(default)', 'contains'][a]
         return out
 
     def action_name(self, a):
@@ -162,12 +180,29 @@ def make_value_fn(world, line_name):
             a -= 2
             if a < len(world.input_names):
                 name = world.input_names[a]
-                val = i[name]
+                mode = world.choose(world.mode_key('i', line_name, node), 3) if world.input_modes else 0
+                if mode == 0:
+                    val = i[name]
+                elif mode == 1:
+                    val = i.get(name, MISSING)
+                else:
+                    val = 1 if name in i else 0
                 world.log.append(('read_input_ok', line_name, name))
             else:
                 name = world.targets[a - len(world.input_names)]
-                val = v[name]
+                # how the definition looks the line up: v[name], v.get(name, default)
+                # or `name in v` -- all three must abort the attempt while the
+                # line has no value yet
+                mode = world.choose(world.mode_key('v', line_name, node), world.n_modes)
+                if mode == 0:
+                    val = v[name]
+                elif mode == 1:
+                    val = v.get(name, MISSING)
+                else:
+                    val = 1 if name in v else 0
                 world.log.append(('read_line_ok', line_name, name))
+            if val is MISSING:
+                val = -1
             reads.append(val)
             # branch on an uninterpreted predicate of the value read
             l = symx._lift(val)
@@ -224,6 +259,8 @@ class Counters(object):
         self.total_attempts = 0
         self.waits = {}
         self.prompt_log = []
+        self.answered = {}
+        self.loop_checks = 0
 
 
 class StepBudget(Exception):
@@ -244,9 +281,17 @@ def run_solve(world, config, order='symbolic', prompt_mode='symbolic', budget=20
         if cnt.refused:
             cnt.prompt_after_refusal += 1
         cnt.prompt_log.append((name, [f.name() for f in needed_by]))
-        ans = symx.wrap(tm.var('answer:%s' % name, 'B'), bool)
-        if ans:
-            return (Tok(name), True)
+        # 0 = refuses, 1 = types a value, 2 = types a blank line (valid: means 0)
+        t = tm.var('answer:%s' % name, 'I')
+        ex = symx.cur()
+        ex.assume(tm.and_(tm.le(tm.I(0), t), tm.lt(t, tm.I(world.n_answers))))
+        ans = ex.concretize(t)
+        if ans == 1:
+            cnt.answered[name] = Tok(name)
+            return (cnt.answered[name], True)
+        if ans == 2:
+            cnt.answered[name] = ''
+            return ('', True)
         cnt.refused = True
         return (None, False)
 
@@ -261,6 +306,17 @@ def run_solve(world, config, order='symbolic', prompt_mode='symbolic', budget=20
             raise StepBudget()
         return orig_attempt(field)
     s._attempt_field = attempt
+    # the main loop evaluates has_met() on every iteration: a loop that spins
+    # without attempting anything is caught by the same step budget
+    for tr in (s._field_dependencies, s._input_dependencies):
+        orig_has_met = tr.has_met
+
+        def has_met(_o=orig_has_met):
+            cnt.loop_checks += 1
+            if cnt.loop_checks > budget * 20:
+                raise StepBudget()
+            return _o()
+        tr.has_met = has_met
     for tr, label in ((s._field_dependencies, 'f'), (s._input_dependencies, 'i')):
         orig_add = tr.add_unmet
 
